@@ -408,6 +408,37 @@ fn run_model<K: TestKey>(p: &Params, case: u64, rep: &mut Report) {
         };
         oracle::check_format(&root, n_ops, &mr.model, &mut tracker, expect_new, &mut findings);
 
+        // "at any point of any history": besides the reopen operations of the history itself, a
+        // copy of the directory taken at this operation boundary is opened on the side (what a
+        // restart right now would find; damage that a later operation heals is still seen)
+        if p.focus == "C02" && sess.open_tx_count() == 0 && !matches!(op, Op::Reopen { .. }) && rng.chance(1, 2) {
+            let copy = fsx::fresh_path("seqcopy");
+            if fsx::copy_tree(&root, &copy).is_ok() {
+                match cassadilia::Cas::<K>::open(&copy, config(n_ops, true, false, true, true)) {
+                    Ok(c2) => {
+                        let o = oracle::observe(&c2);
+                        let want = Observable::of_model(&mr.model, o.index_size);
+                        let d = want.diff(&o, true);
+                        if !d.is_empty() {
+                            findings.push(Finding::new(
+                                &["C02"],
+                                "a restart at this point of the history shows a state other than the model",
+                                "side reopen of a copy at an operation boundary",
+                                format!("step {step} {}: {}", op.enc(), d.join("; ")),
+                            ));
+                        }
+                    }
+                    Err(e) => findings.push(Finding::new(
+                        &["C02"],
+                        "a restart at this point of the history fails",
+                        "side reopen of a copy at an operation boundary",
+                        format!("step {step} {}: {}", op.enc(), cassadilia_verif::session::err_chain(&e)),
+                    )),
+                }
+                rep.count("side_reopens_at_operation_boundaries", 1);
+            }
+            fsx::rm_rf(&copy);
+        }
         if let Some((before, disk_before)) = before_reopen {
             if mutated_since_open {
                 feats.reopen_after_mut = true;
@@ -668,7 +699,7 @@ fn run_gate<K: TestKey>(p: &Params, case: u64, rep: &mut Report) {
     let root = fsx::fresh_path("gate");
     // rarely (thorough only): create WITH the pre-created tree of 65 536 directories, so that the
     // remembered choice is exercised in both directions
-    let pre_at_creation = p.tier_thorough && case % 2000 == 1999;
+    let pre_at_creation = (p.tier_thorough && case % 2000 == 1999) || case % 1200 == 7;
     if pre_at_creation {
         rep.count("created_with_precreated_tree", 1);
     }
@@ -688,6 +719,30 @@ fn run_gate<K: TestKey>(p: &Params, case: u64, rep: &mut Report) {
     let probes = g.probes();
     let rounds = rng.range(2, 4);
     let mut rejected = 0u64;
+    if pre_at_creation {
+        // with the pre-created tree nothing creates directories later: a blob must be storable
+        // again after its shard directory was emptied by a removal
+        let k = g.keys[0].clone();
+        let c = g.contents[g.contents.len() - 1];
+        for op in [
+            Op::Put { key: k.clone(), content: c, chunks: vec![] },
+            Op::Remove { key: k.clone() },
+            Op::Put { key: k.clone(), content: c, chunks: vec![] },
+            Op::Remove { key: k.clone() },
+        ] {
+            history.push(op.clone());
+            let want = mr.step(&op);
+            match sess_opt.as_mut().unwrap().exec(&op) {
+                Ok(o) if o == want => {}
+                r => findings.push(Finding::new(
+                    &["C19"],
+                    "operation misbehaved on a store created with the pre-created directory tree",
+                    "pre-created tree",
+                    format!("{}: want {want:?} got {r:?}", op.enc()),
+                )),
+            }
+        }
+    }
     'outer: for round in 0..rounds {
         // a populated, not necessarily checkpointed tail
         let mut gc = g.cfg.clone();
